@@ -344,6 +344,8 @@ def gen_op_snippets(ctx, n2):
         out.append((rng.choice(POOL), rng.choice(POOL), tmpl % ("(r %s a0)" % rng.choice(OPS2))))
     snippets = []
     for r, a, body in out:
+        if a is not None and a.name in ("vec:self", "map:self") and r.name == a.name and ("==" in body or "!=" in body):
+            a = BY_NAME["vec:3"]     # two distinct self-containing containers under == : deep_eq_recursion, probed by the directed stream only
         pre = ["{"]
         if a is not None:
             pre.append(a.code("a0"))
